@@ -310,8 +310,103 @@ def opaque_name_unit(cls):
                 functions=['OpaqueEnumParsable._parse[%s]' % cls.__name__, 'OpaqueEnumComposer.compose'])
 
 
+def KF_DECLARED_LISTED():
+    import json, os
+    from checks import common as _c
+    p = os.path.join(_c.HERE, 'known_findings.json')
+    return any(f.get('id') == 'KF-C10-name-list-declared-length' for f in json.load(open(p)).get('findings', []))
+
+
+def w_name_list_declared():
+    from cryptoparser.ssh.subprotocol import SshKexAlgorithmVector
+    data = bytes.fromhex('0100000000')
+    try:
+        v, n = SshKexAlgorithmVector.parse_immutable(data)
+    except Exception as ex:
+        return dict(reproduced=False, observed='rejected: %r' % (ex,))
+    return dict(reproduced=True, observed='accepted %d octets, items %r, composes to %s' % (n, list(v), bytes(v.compose()).hex()))
+
+
+def name_list_unit(vcls):
+    """SSH name-lists (RFC 4251 5): whatever the list parser accepts is preserved verbatim - known names decode to the member
+    carrying exactly that name, unknown names are kept as they were received - so composing the parsed list gives back the
+    consumed bytes. The scanning loops of the text parser are explored up to the loop bound (short names): bounded unit."""
+    def thunk():
+        P = E.cur()
+        buf, facts = V.base_seq('buf')
+        for f in facts:
+            P.assume(f)
+        P.inputs['buf'] = buf
+        P.buf = buf
+        P.top_class = vcls
+        v, n = I.call(vcls.parse_immutable, [buf], {})
+        if KF_DECLARED_LISTED():
+            # listed finding: a declared body length beyond the bytes present (replayed natively on every run)
+            P.assume(S.dec(buf.at, 0, 4, '!') <= buf.n - 4)
+        out = vc.outcome_of(lambda: I.call(I.getattr_(v, 'compose'), [], {}))
+        from checks import e1 as _e1
+        if out.kind != 'ret':
+            _e1.record_path_fact(P, 'C10 %s: the parsed name-list composes (raised %s)' % (vcls.__name__, out.value.cls.__name__), False)
+            return
+        vc.oblige_equal(P, 'C10 %s: the parsed name-list re-encodes to exactly the bytes that were consumed' % vcls.__name__,
+                        ops.as_seq(out.value).copy('bytes'), V.slice_seq(buf, 0, ops.as_int(n)).copy('bytes'))
+
+    def native(data):
+        try:
+            v, n = vcls.parse_immutable(data)
+        except Exception:
+            return dict(reproduced=False)
+        if KF_DECLARED_LISTED() and len(data) >= 4 and int.from_bytes(bytes(data[:4]), 'big') > len(data) - 4:
+            return dict(reproduced=False)                      # the listed finding
+        try:
+            w = bytes(v.compose())
+        except Exception as ex:
+            return dict(reproduced=True, call='%s.parse_immutable(bytes.fromhex(%r))[0].compose()' % (vcls.__name__, bytes(data).hex()),
+                        expected=bytes(data[:n]).hex(), observed=repr(ex)[:100], key='name not preserved')
+        if w != bytes(data[:n]):
+            return dict(reproduced=True, call='%s.parse_immutable(bytes.fromhex(%r))[0].compose()' % (vcls.__name__, bytes(data).hex()),
+                        expected=bytes(data[:n]).hex(), observed=w.hex(), key='name not preserved')
+        return dict(reproduced=False)
+
+    def search(seed, hints=()):
+        import struct
+        members = list(vcls.get_param().item_class)[:3] if hasattr(vcls.get_param(), 'item_class') else []
+        known = [m.value.code for m in members if isinstance(getattr(m.value, 'code', None), str)]
+        names = known + ['unknown@example.com', 'x']
+        cands = []
+        for a in names:
+            for variant in (a, ' ' + a, a + ' ', a.upper(), a + '\t'):
+                cands.append(variant)
+                cands.append(variant + ',' + names[0])
+                cands.append(names[-1] + ', ' + variant)
+        for c in cands:
+            body = c.encode('ascii')
+            w = native(struct.pack('!I', len(body)) + body)
+            if w.get('reproduced'):
+                return w
+        return dict(reproduced=False)
+
+    def replay(inputs):
+        from checks import e1 as _e1
+        data = _e1.bytes_of(inputs)
+        w = native(data) if data is not None else dict(reproduced=False)
+        return w if w.get('reproduced') else search(0)
+
+    def run():
+        from checks import e1 as _e1
+        _e1.setup()
+        r = vc.run_unit(vcls.__name__, thunk, max_paths=3000)
+        r.extra['bounded'] = sorted(set(r.extra.get('bounded', [])) | {'text-layer scanning loops explored up to the loop bound of the E1 exploration (names of a few octets)'})
+        return r
+    return Unit('names/%s' % vcls.__name__, run, replay=replay, search=search, clause='C10 SSH names',
+                functions=['VectorString._parse[%s]' % vcls.__name__, 'VectorString.compose'])
+
+
 def units(tier, seed):
     out = []
+    from cryptoparser.ssh import subprotocol as _SP
+    for vc_ in (_SP.SshKexAlgorithmVector, _SP.SshEncryptionAlgorithmVector):
+        out.append(name_list_unit(vc_))
     from cryptoparser.common import base as _RB
     from checks import census as _census
     for c in _census.concrete_parsables():
@@ -334,4 +429,4 @@ def units(tier, seed):
     return out + foundation.units(tier, seed, include_enum=False)
 
 
-FINDING_REPLAYS = {}
+FINDING_REPLAYS = {'KF-C10-name-list-declared-length': w_name_list_declared}
